@@ -43,7 +43,7 @@ user, 1..4 distributed peers, 5..8 other users), connection ids are creation ord
         A REPLY WRITE THAT FAILS LATE (monitor only). The first write of a PeerSearchReply towards the asking user
         of `search` — on whichever of that user's connections the library picks, an existing one or one it opens
         now — is faulty; `search` is issued, the loop run to quiescence, each listed op likewise; 11 virtual
-        seconds pass for the time-out modes, the block is lifted, 3 more virtual seconds pass:
+        seconds pass for the time-out modes, the block is lifted, 15 more virtual seconds pass:
         mode "fail-before"  : write() raises ConnectionResetError, no byte accepted;
         mode "late-reset"   : the bytes are accepted and delivered, then drain() raises (reset after the flush);
         mode "timeout"      : the bytes are accepted and delivered, drain() never returns (the library's 10 s write
@@ -385,11 +385,13 @@ async def _scenario(loop, case: dict):
                         trig()
             lw.on_write = on_write
 
-        def is_reply(data) -> bool:
+        def reply_ticket(data):
+            """ticket of the PeerSearchReply these bytes are, None for anything else"""
             try:
-                return isinstance(m.PeerMessage.deserialize_request(bytes(data)), m.PeerSearchReply.Request)
+                msg = m.PeerMessage.deserialize_request(bytes(data))
             except Exception:
-                return False
+                return None
+            return msg.ticket if isinstance(msg, m.PeerSearchReply.Request) else None
 
         def watch_peer_writer(lw, n):
             """library-side socket of a peer connection with user n: the armed reply fault (op "rfault") strikes the
@@ -398,10 +400,13 @@ async def _scenario(loop, case: dict):
 
             def write(data):
                 f = state.get('reply_fault')
-                if f is None or not f['armed'] or f['user'] != n or not is_reply(data):
+                if f is None or not f['armed'] or f['user'] != n:
+                    return orig_write(data)
+                ticket = reply_ticket(data)
+                if ticket is None:
                     return orig_write(data)
                 f['armed'] = False
-                f['hit'] = True
+                f['hit'] = ticket              # the reply (to the carrier with this ticket) that met the faulty socket
                 mode = f['mode']
                 if mode == 'fail-before':
                     lw.reset()
@@ -707,7 +712,7 @@ async def _scenario(loop, case: dict):
                 _, mode, sop, during = op
                 if mode not in RFAULT_MODES:
                     raise ValueError(f'unknown rfault mode {mode!r}')
-                f = {'user': sop[5], 'mode': mode, 'armed': True, 'hit': False, 'gate': asyncio.Event(),
+                f = {'user': sop[5], 'mode': mode, 'armed': True, 'hit': None, 'gate': asyncio.Event(),
                      'writer': None}
                 state['reply_fault'] = f
                 sts = []
@@ -724,7 +729,7 @@ async def _scenario(loop, case: dict):
                     f['gate'].set()
                     state['reply_fault'] = None
                 await settle()
-                await advance(3.0)                 # a second attempt made a little later is seen too
+                await advance(15.0)                # a second attempt made a little later is seen too
                 extra['fault_hit'] = f['hit']
                 status = 'rfault:' + ','.join(sts)
             else:
@@ -972,12 +977,13 @@ def _monitor(case: dict, trace: list) -> list[Violation]:
                         want_r.append({'to': r[5], 'ticket': r[6], 'username': ME, 'visible': v, 'locked': l})
                 got_r = [r for r in s['replies'] if r['to'] not in BLOCKED_SEARCH and r['to'] != ME]
                 key = lambda r: (r['to'], r['ticket'], str(r['username']), r['visible'], r['locked'])
-                if op[0] == 'rfault' and op[1] == 'fail-before' and s.get('fault_hit'):
-                    # the socket refused the first write of the reply to op[2]'s carrier before accepting a byte:
-                    # nothing can have arrived from that attempt; whether the library tries again is not demanded
+                if op[0] == 'rfault' and op[1] == 'fail-before' and s.get('fault_hit') is not None:
+                    # the socket refused the first write of a reply (the one with ticket `fault_hit`, to op[2]'s user)
+                    # before accepting a byte: nothing can have arrived from that attempt; whether the library tries
+                    # again is not demanded
                     lost = _sub_multiset(sorted(map(key, want_r)), sorted(map(key, got_r)))
                     for x in want_r:
-                        if (x['to'], x['ticket']) == (op[2][5], op[2][6]) and key(x) in lost:
+                        if (x['to'], x['ticket']) == (op[2][5], s['fault_hit']) and key(x) in lost:
                             want_r.remove(x)
                             break
                 if sorted(map(key, got_r)) != sorted(map(key, want_r)):
@@ -997,7 +1003,7 @@ def _monitor(case: dict, trace: list) -> list[Violation]:
                         sig, what = 'C14-reply-content', 'reply does not carry exactly the matching visible / locked files'
                     if op[0] == 'rfault':
                         what += (f' (the first write of the reply met a faulty socket [{op[1]}'
-                                 f'{"" if s.get("fault_hit") else ", not reached"}])')
+                                 f'{"" if s.get("fault_hit") is not None else ", not reached"}])')
                     add(sig, what, k, observed=got_r, required=want_r)
     return vs
 
@@ -1088,6 +1094,9 @@ def _gen_case(rng: random.Random, kind: Optional[str] = None) -> dict:
 
     if kind != 'nosession' or rng.random() < 0.5:
         do(['session'])
+    if kind in ('root', 'parent', 'churn', 'sources', 'burst') and rng.random() < 0.2:
+        for _ in range(rng.choice([1, 1, 2])):         # askers that already have a peer connection to us (re-used
+            do(['pconn', rng.choice([2, 5, 5, 8])])    # for the reply; two of them: still exactly one reply)
     nchild = rng.choice([0, 1, 2, 3, 3])
     if kind == 'root':
         children(nchild)
@@ -1341,6 +1350,36 @@ WITNESSES = {
         'ops': [['session'], ['in', 1], ['in', 2], ['in', 3],
                 ['fault', 1, 'block', ['search', 's', 'server', 3, 49, 8, 79, 'jazz'], [['close', 0]]]],
         'kind': 'witness', 'layout': 1, 'asker_closes': False},
+    # carriers handled while a child is being added (the property holds on HEAD: `children.append` precedes the sends)
+    'join-search-right-after-level-write': {
+        'ops': [['session'], ['in', 1], ['join', 2, ['soon', 0, 0], [['search', 's', 'server', 3, 49, 5, 77, 'rock']]],
+                ['search', 's', 'server', 3, 49, 5, 78, 'rock']],
+        'kind': 'witness', 'layout': 1, 'asker_closes': True},
+    'join-parent-search-while-level-send-blocks': {
+        'ops': [['session'], ['pp', [4]], ['level', 0, 1], ['root', 0, 5], ['in', 1],
+                ['join', 2, ['block'], [['search', 0, 'dist', 3, 49, 5, 77, 'rock'],
+                                        ['search', 0, 'legacy', 3, 49, 8, 78, 'one']]]],
+        'kind': 'witness', 'layout': 1, 'asker_closes': True},
+    'join-level-send-times-out': {
+        'ops': [['session'], ['in', 1], ['join', 2, ['timeout'], [['search', 's', 'server', 3, 49, 5, 77, 'rock']]],
+                ['search', 's', 'server', 3, 49, 5, 79, 'rock']],
+        'kind': 'witness', 'layout': 1, 'asker_closes': True},
+    # the write of the reply fails late: the asker must still have exactly one copy (HEAD does not try again)
+    'reply-write-times-out-after-the-bytes-were-accepted': {
+        'ops': [['session'], ['pconn', 5], ['pconn', 5],
+                ['rfault', 'timeout', ['search', 's', 'server', 3, 49, 5, 77, 'rock'], []]],
+        'kind': 'witness', 'layout': 1, 'asker_closes': False},
+    'reply-reset-after-flush-on-a-fresh-connection': {
+        'ops': [['session'], ['rfault', 'late-reset', ['search', 's', 'server', 3, 49, 5, 77, 'rock'], []]],
+        'kind': 'witness', 'layout': 1, 'asker_closes': True},
+    'reply-slow-asker-flushed-at-close': {
+        'ops': [['session'], ['pconn', 5],
+                ['rfault', 'slow-timeout', ['search', 's', 'server', 3, 49, 5, 77, 'rock'], []]],
+        'kind': 'witness', 'layout': 1, 'asker_closes': True},
+    'fanout-child-write-fails-late': {
+        'ops': [['session'], ['in', 1], ['in', 2], ['in', 3],
+                ['fault', 1, 'late', ['search', 's', 'server', 3, 49, 5, 77, 'rock'], []]],
+        'kind': 'witness', 'layout': 1, 'asker_closes': True},
 }
 
 
